@@ -164,6 +164,12 @@ def run_cvc5(text: str, timeout_s: int) -> str:
         os.unlink(path)
 
 
+def _cvc5_worker(args):
+    oid, text, timeout_s = args
+    t0 = time.time()
+    return oid, run_cvc5(text, timeout_s), time.time() - t0
+
+
 _POOL = None
 
 
@@ -251,16 +257,16 @@ def discharge(axioms: List[Any], obs: List[Obligation], timeout_s: int = 30,
     obs = [ob for ob in obs_all if ob.status != "discharged"]
     # cover obligations only get the first short round: "not refutable quickly" is what they need
     rnd(obs, min(timeout_s, max(3, timeout_s / 6)), False, "z3")
-    for tmo, mb, tag in ((timeout_s / 3, "noeq", "z3/no-solve-eqs"), (timeout_s / 3, True, "z3+mbqi"), (timeout_s, False, "z3"), (timeout_s, True, "z3+mbqi")):
+    for tmo, mb, tag in ((timeout_s / 3, "noeq", "z3/no-solve-eqs"), (timeout_s / 3, True, "z3+mbqi"), (timeout_s, False, "z3")):
         sel = [ob for ob in open_() if not ob.expect_fail and not ob.low_budget]
         if sel and (retry_mbqi or not mb):
             rnd(sel, tmo, mb, tag)
     pending = [ob for ob in obs if ob.status in ("unknown", "error") and not ob.expect_fail and not ob.low_budget]
     if pending and use_cvc5 and os.path.exists("/usr/bin/cvc5"):
-        for ob in pending:
-            t0 = time.time()
-            r = run_cvc5(texts[ob.oid], timeout_s)
-            ob.time_s += time.time() - t0
+        jobs = [(ob.oid, texts[ob.oid], timeout_s) for ob in pending]
+        for oid, r, dt in p.imap_unordered(_cvc5_worker, jobs, chunksize=1):
+            ob = byid[oid]
+            ob.time_s += dt
             if r == "unsat":
                 ob.status, ob.backend = "discharged", "cvc5"
     for ob in obs_all:
